@@ -53,7 +53,7 @@ theorem collapse_refines_all {k : Kernel} {h : Nat} (hi : GInv k) (hl : FaceLoop
 theorem collapseK0_cases (k : Kernel) : collapseK0 k = k ∨ (k.deferred = false ∧ collapseK0 k = { k with deferred := true }) := by
   unfold collapseK0
   cases hd : k.deferred
-  · right; simp only [Bool.not_false, if_true]; exact ⟨rfl, enableDeferred_true_of_imm hd⟩
+  · right; simp only [Bool.not_false, if_true]; exact ⟨trivial, enableDeferred_true_of_imm hd⟩
   · left; simp
 
 /-- valid arguments for the history theorem: as `ShapeOK` (OVM/Tet/TetStable.lean), but WITHOUT the gap hypothesis for
@@ -112,6 +112,54 @@ theorem tetShape_run_all (ops : List TetOp) (k : Kernel) (hi : TetSInv k) (h : S
 theorem tetShape_reachable_all (ops : List TetOp) (h : ShapeAdmissibleAll {} ops) :
     ValenceShape (runTetX {} ops) ∧ TetShape (runTetX {} ops) :=
   (tetShape_run_all ops {} sinv_empty h).2
+
+/-! ### Boolean forms and non-vacuity -/
+
+def shapeOKAllB (k : Kernel) : TetOp → Bool
+  | .collapse h => decide (FaceLoops k) && k.fullBU && k.linkCondition h
+  | .addCellV chk vs => k.vBU && k.eBU && decide (Unflagged k) && vs.all (vOkB k) && decide vs.Nodup && decide (CellVFree k vs chk)
+  | op => shapeOKB k op
+
+theorem shapeOKAll_of_B (k : Kernel) (op : TetOp) (h : shapeOKAllB k op = true) : ShapeOKAll k op := by
+  cases op with
+  | collapse x =>
+    simp only [shapeOKAllB, Bool.and_eq_true, decide_eq_true_eq] at h
+    exact ⟨h.1.1, h.1.2, h.2⟩
+  | addCellV chk vs =>
+    simp only [shapeOKAllB, Bool.and_eq_true, decide_eq_true_eq, List.all_eq_true] at h
+    exact ⟨h.1.1.1.1.1, h.1.1.1.1.2, h.1.1.1.2, fun v hv => vOk_of_B (h.1.1.2 v hv), h.1.2, h.2⟩
+  | base o => exact shapeOK_of_B k _ (by simpa only [shapeOKAllB] using h)
+  | addHalfedge a b => exact shapeOK_of_B k _ (by simpa only [shapeOKAllB] using h)
+  | addHalffaceHe chk hes => exact shapeOK_of_B k _ (by simpa only [shapeOKAllB] using h)
+  | addHalfface3 chk a b c => exact shapeOK_of_B k _ (by simpa only [shapeOKAllB] using h)
+  | addCell4 chk a b c d => exact shapeOK_of_B k _ (by simpa only [shapeOKAllB] using h)
+  | probeMode d f => exact shapeOK_of_B k _ (by simpa only [shapeOKAllB] using h)
+  | splitEdge x => exact shapeOK_of_B k _ (by simpa only [shapeOKAllB] using h)
+  | splitFace f => exact shapeOK_of_B k _ (by simpa only [shapeOKAllB] using h)
+
+def shapeAdmissibleAllB : Kernel → List TetOp → Bool
+  | _, [] => true
+  | k, op :: rest => shapeOKAllB k op && shapeAdmissibleAllB (k.stepTetX op).1 rest
+
+theorem shapeAdmissibleAll_of_B (k : Kernel) (ops : List TetOp) (h : shapeAdmissibleAllB k ops = true) : ShapeAdmissibleAll k ops := by
+  induction ops generalizing k with
+  | nil => trivial
+  | cons op t ih =>
+    simp only [shapeAdmissibleAllB, Bool.and_eq_true] at h
+    exact ⟨shapeOKAll_of_B k op h.1, ih _ h.2⟩
+
+/-- IMMEDIATE NON-FAST mode: a fan of three tets (one through `add_cell(vector)`), `collapse_edge(0 → 1)` (removes two
+    cells, rebuilds the third, garbage-collects), a vertex swap, `delete_vertex` of an isolated vertex (handles shift) -/
+def sampleAll : List TetOp :=
+  [.probeMode false false, .base (.addNVertices 6), .addCell4 true 0 1 2 3, .addCellV true [0, 2, 1, 4],
+   .addCell4 true 0 3 2 5, .collapse 0, .base (.swapVertex 0 3), .base (.deleteVertex 0)]
+
+theorem sampleAll_admissible : ShapeAdmissibleAll {} sampleAll := shapeAdmissibleAll_of_B _ _ (by decide +kernel)
+
+example : TetShape (runTetX {} sampleAll) := (tetShape_reachable_all sampleAll sampleAll_admissible).2
+-- cross-check (test): one tetrahedron is left, in immediate non-fast mode
+example : (runTetX {} sampleAll).liveCells.length = 1 ∧ (runTetX {} sampleAll).deferred = false ∧
+    (runTetX {} sampleAll).fast = false ∧ TetShape (runTetX {} sampleAll) := by decide +kernel
 
 end Kernel
 end OVM
